@@ -187,7 +187,8 @@ pub static STAGE_COUNTS: [AtomicUsize; 8] = [
 ];
 /// source elements the instrumented iterator yielded while the computation was being built
 pub static SRC_CTOR: AtomicUsize = AtomicUsize::new(0);
-/// injected panic of the reduce operator: (0, k) = its k-th call, (1, _) = any call on the calling thread
+/// injected panic of the reduce operator: (0, k) = its k-th call, (1, _) = any call on the calling
+/// thread, (2, t) = a call whose right operand is >= t (a whole-chunk result in the designed cases)
 pub static RED_PANIC: Mutex<Option<(u8, usize)>> = Mutex::new(None);
 /// for every run of the runner: was the computation still being built (0) or inside the terminal (1)
 pub static RUN_PHASES: Mutex<Vec<u8>> = Mutex::new(vec![]);
@@ -483,14 +484,14 @@ pub fn mk_each<T: AsI64>(id: usize) -> impl Fn(T) + Clone + Send + Sync {
 /// reduce operator on plain values
 pub fn mk_red(id: usize, o: RedOp) -> impl Fn(i64, i64) -> i64 + Clone + Send + Sync {
     move |a, b| {
-        note_red(id);
+        note_red(id, b);
         run_red(o, a, b)
     }
 }
 /// reduce operator on borrowed / index items: only selection operators make sense
 pub fn mk_red_sel<T: AsI64>(id: usize, o: RedOp) -> impl Fn(T, T) -> T + Clone + Send + Sync {
     move |a: T, b: T| {
-        note_red(id);
+        note_red(id, b.v());
         match o {
             RedOp::Max => {
                 if b.v() > a.v() {
@@ -511,7 +512,7 @@ pub fn mk_red_sel<T: AsI64>(id: usize, o: RedOp) -> impl Fn(T, T) -> T + Clone +
 }
 
 pub static RED_THREADS: Mutex<Vec<usize>> = Mutex::new(vec![]);
-fn note_red(_id: usize) {
+fn note_red(_id: usize, right: i64) {
     let t = tid();
     {
         let mut r = lock(&RED_THREADS);
@@ -529,6 +530,10 @@ fn note_red(_id: usize) {
         Some((1, _)) if t == 0 => {
             RED_FIRED.store(true, Ordering::SeqCst);
             panic!("injected panic in the reduce operator on the calling thread");
+        }
+        Some((2, th)) if right >= th as i64 => {
+            RED_FIRED.store(true, Ordering::SeqCst);
+            panic!("injected panic in the reduce operator: right operand {} >= {}", right, th);
         }
         _ => {}
     }
@@ -835,6 +840,8 @@ pub fn parse_case(line: &str) -> Case {
                 Some((1u8, 0usize))
             } else if let Some(k) = s.strip_prefix("n:") {
                 Some((0u8, k.parse().unwrap()))
+            } else if let Some(k) = s.strip_prefix("ge:") {
+                Some((2u8, k.parse().unwrap()))
             } else {
                 None
             }
@@ -1137,7 +1144,7 @@ pub fn tmk_fm<T: AsI64>(id: usize, c: Cl) -> impl Fn(T) -> Option<Tok> + Clone +
 }
 pub fn tmk_red(id: usize, o: RedOp) -> impl Fn(Tok, Tok) -> Tok + Clone + Send + Sync {
     move |a: Tok, b: Tok| {
-        note_red(id);
+        note_red(id, b.v);
         Tok::new(run_red(o, a.v, b.v))
     }
 }
